@@ -8,26 +8,26 @@ VF_COMP(uint32_t, 8, 0, float);
 #if VF_GROUP == 1
 VF_COMP_ENUM(uint64_t, 1, 1, float);
 VF_COMP_ENUM(uint32_t, 2, 0, float);
-VF_COMP(uint16_t, 2, 4, float);
-VF_COMP(uint8_t, 4, 2, double);
+VF_COMP(uint16_t, 6, 4, float);
+VF_COMP(uint8_t, 3, 2, double);
 #endif
 #if VF_GROUP == 2
 VF_COMP_ENUM(uint16_t, 1, 256, float);
-VF_COMP(uint32_t, 32, 256, float);
+VF_COMP(uint32_t, 24, 200, float);
 VF_COMP(uint64_t, 128, 16, double);
 #endif
 #if VF_GROUP == 3
 VF_COMP_BIG(uint64_t, 1, 4, float);
-VF_COMP(uint64_t, 2, 0, float);
+VF_COMP(uint64_t, 5, 3, float);
 VF_COMP(uint32_t, 1, 2, double);
 #endif
 #if VF_GROUP == 4
 VF_COMP_SWEEP(uint64_t, 1, 4, float);
-VF_COMP(uint16_t, 8, 256, float);
+VF_COMP(uint16_t, 12, 256, float);
 VF_COMP(uint64_t, 4, 256, float);
 #endif
 #if VF_GROUP == 5
-VF_COMP(uint8_t, 1, 0, float);
+VF_COMP(uint8_t, 100, 0, float);
 VF_COMP(uint32_t, 4, 4, float);
 #endif
 #if VF_GROUP == 6
